@@ -272,7 +272,7 @@ func (s *shape) referrers(n string) []*node {
 }
 
 var shapeNames = []string{"img", "dup", "idx2", "nested", "art", "artidx", "bentry", "docker", "schema1",
-	"ext", "empty", "inline", "dtag", "loop"}
+	"ext", "empty", "inline", "dtag", "loop", "big"}
 
 func buildShape(name string) *shape {
 	s := newShape(name)
@@ -364,6 +364,10 @@ func buildShape(name string) *shape {
 		sg := s.image("S", false, L(cs), []lref{L(ls)}, nil, "")
 		s.addDTag(m, sg, ".sig")
 		s.addDTag(sg, m, ".att")
+		s.Root = "M"
+	case "big": // one layer large enough that writing it takes a while (demonstrates findings/C04-1 reliably)
+		c, lb, l2 := s.config("C", "amd64"), s.blob("LB", 6<<20), s.blob("L2", 64)
+		s.image("M", false, L(c), []lref{L(lb), L(l2)}, nil, "")
 		s.Root = "M"
 	default:
 		return nil
